@@ -592,7 +592,7 @@ theorem parent_ready_from_finalization :
     (List.range 3).filter (fun j => (run (init (c par1)) evs1 j).votor.log.any (fun it => isNotarFor 2 20 it ||
       it == .out (.notarFallback 2 20))) = [0] := by decide +kernel
 
-/-! ### 2. a correct node hits a "consensus safety violation" assertion although safety holds -/
+/-! ### 2. (repaired: D27) a correct node hit a "consensus safety violation" assertion although safety holds -/
 
 def par2 : ℕ × ℕ → ℕ × ℕ
   | (2, 21) => (1, 10) | (2, 22) => (1, 10) | (3, 32) => (2, 22) | (4, 40) => (3, 32) | _ => (0, 0)
@@ -617,16 +617,24 @@ def evs2 : List Ev :=
    (1, .recvCert ⟨.nf, 3, 32, [1, 2, 3], [0], 100⟩), (1, .votorBlock 4 ⟨40, 3, 32⟩), (1, .pump), (1, .pump),
    (0, .poolBlock (4, 40) (3, 32)), (0, .recvVote ⟨.notar, 4, 40, 0⟩), (0, .recvVote ⟨.notar, 4, 40, 1⟩)]
 
-/-- **Finding 2** (a defect of `finality_tracker.rs`, known finding D27): in this *valid* run with 19 % Byzantine stake — all
-    correct nodes follow the protocol, agreement holds (`cluster_agreement`) — the correct node X panics: its finality tracker
-    holds `Notarized(x)` for slot 2 (a notarization certificate for x = (2,21)) when the fast-finalization of f = (4,40) makes it
-    walk the chain f → z → y = (2,22) and `handle_implicitly_finalized` asserts that the notarized block of slot 2 is y
-    ("consensus safety violation"). A notarized block need not be on the finalized chain: its slot can also hold a
-    notar-fallback-certified block (`Finality.Safe.notar_final`, the premise of C08 / C07, is *not* implied by safety). -/
-theorem safety_assert_fires_in_valid_run :
+/-- **Finding 2** (defect D27 of `finality_tracker.rs`, found by this refinement proof, since repaired: `fix:` commit 7ac7ffa;
+    the model `Model/Finality.lean` follows the repaired code). In this *valid* run with 19 % Byzantine stake — all correct nodes
+    follow the protocol, agreement holds (`cluster_agreement`) — node X's finality tracker holds `Notarized(x)` for slot 2 (a
+    notarization certificate for x = (2,21)) when the fast-finalization of f = (4,40) makes it walk the chain
+    f → z → y = (2,22). The pinned snapshot asserted in `handle_implicitly_finalized` that the notarized block of slot 2 is y
+    ("consensus safety violation") and the correct node X panicked. A notarized block need not be on the finalized chain: its slot
+    can also hold a notar-fallback-certified block (the old premise `Finality.Safe.notar_final` of C08 / C07 was *not* implied by
+    safety). **Now**: the run completes, no node panics, X's pool holds the fast-finalization certificate of f. **Before the
+    repair** (`markNotarizedOld` / `markFastFinalizedOld` = the pinned snapshot, applied to X's tracker state before the last
+    operation, which both versions reach identically): the fast-finalization panics. -/
+theorem notarized_sibling_no_longer_panics :
     Valid (c par2) (init (c par2)) evs2 ∧ 5 * byzStake (c par2) < (c par2).stakes.sum ∧
-    (run (init (c par2)) evs2 0).dead = true ∧
-    Pool.Event.panic ∈ (recvVote (run (init (c par2)) (evs2.take 45) 0) ⟨.notar, 4, 40, 1⟩).2.2 ∧
+    (List.range 4).all (fun i => !(run (init (c par2)) evs2 i).dead) = true ∧
+    Pool.Event.panic ∉ (recvVote (run (init (c par2)) (evs2.take 45) 0) ⟨.notar, 4, 40, 1⟩).2.2 ∧
+    (((run (init (c par2)) evs2 0).pool.getSlot 4).bind (·.cFf)).map (·.hash) = some 40 ∧
+    (match Finality.markNotarizedOld (run (init (c par2)) (evs2.take 45) 0).pool.fin (4, 40) with
+      | .ok t _ => (match Finality.markFastFinalizedOld t (4, 40) with | .panic => true | .ok _ _ => false)
+      | .panic => false) = true ∧
     nodeRunOuts { pool := { epoch := (c par2).epoch 1 } } (proj 1 evs2) =
       [.notar 1 10 0 0, .notar 2 22 1 10, .notar 3 32 2 22, .notar 4 40 3 32, .timer 4, .cert .notarFallback 3 32] := by
   decide +kernel
